@@ -84,6 +84,12 @@ def random_case(rng: random.Random):
     return {"ref": ref, "qry": q, "qlen": whole_len, "shift": shift, "start": start, "end": end, "maxD": maxd, "rev": rev}
 
 
+def _rerun(case):
+    return {"in": case["in"], "obs": run_real(case["in"], 1)}
+
+
+REPLAY = ("Trace_Pairing", "Trace_Pairing.cfg", _rerun, ())
+
 def run(ctx: Ctx):
     quick = ctx.tier == "quick"
     rng = random.Random(ctx.seed * 31337 + 12)
